@@ -189,6 +189,26 @@ func TestVerifBoundedRBAC(t *testing.T) {
 			}
 		}
 	}
+	// Subresources: a rule on a resource never covers its subresources and vice versa (only the
+	// literal or * does). Every pair over resources in {r, r/sub, *, */sub} with the other
+	// fields fixed to a literal or the wildcard.
+	subPairs := 0
+	resources := []string{"ra", "ra/sub", "*", "*/sub", "rb/sub"}
+	for _, ar := range resources {
+		for _, qr := range resources {
+			for _, ag := range []string{"ga", "*"} {
+				for _, av := range []string{"va", "*"} {
+					a := rbacv1.PolicyRule{APIGroups: []string{ag}, Resources: []string{ar}, Verbs: []string{av}}
+					q := rbacv1.PolicyRule{APIGroups: []string{"ga"}, Resources: []string{qr}, Verbs: []string{"va"}}
+					subPairs++
+					if msg := checkBoundedRBAC([]rbacv1.PolicyRule{a}, q); msg != "" {
+						fail([]rbacv1.PolicyRule{a}, q, msg)
+						return
+					}
+				}
+			}
+		}
+	}
 	rng := rand.New(rand.NewSource(seed))
 	two := boundedRules("a", "b")
 	for s := 0; s < samples; s++ {
@@ -199,6 +219,6 @@ func TestVerifBoundedRBAC(t *testing.T) {
 			return
 		}
 	}
-	rep, _ := json.Marshal(map[string]any{"rule_shapes": len(rules), "allow_request_pairs_checked": pairs, "stride": stride, "sampled_two_allow_rule_triples": samples, "seed": seed})
+	rep, _ := json.Marshal(map[string]any{"rule_shapes": len(rules), "allow_request_pairs_checked": pairs, "subresource_pairs_checked": subPairs, "stride": stride, "sampled_two_allow_rule_triples": samples, "seed": seed})
 	fmt.Printf("VERIF-BOUNDED %s\n", rep)
 }
